@@ -149,7 +149,7 @@ Proof.
       eapply safe_bind; [apply IH; auto|].
       + intros a b Ha Hb. apply C; cbn; auto.
       + intros kept I. cbn. destruct v as [ | |[|]| ]; intros x Hx; cbn in *; intuition. }
-  eapply safe_weaken; [exact G|]. intros kept I. eapply rows_ok_incl; eauto. split; auto.
+  eapply safe_weaken; [exact G|]. intros kept I. apply (rows_ok_incl _ rows); [split; auto | exact I].
 Qed.
 
 (* ---------------------------------------------------------------------------------- *)
@@ -257,4 +257,412 @@ Proof.
         destruct (Res y1 H1) as [[o1 [x1 [Ho1 [Hx1 ->]]]]|[o1 [p1 [Ho1 [Hp1 ->]]]]];
         destruct (Res y2 H2) as [[o2 [x2 [Ho2 [Hx2 ->]]]]|[o2 [p2 [Ho2 [Hp2 ->]]]]];
           try discriminate. apply compat_app; auto.
+Qed.
+
+(* ---------------------------------------------------------------------------------- *)
+(* projection                                                                          *)
+
+Definition resolved (sl : list derivedcol) (fs : list field) : Prop :=
+  forall d c, In d sl -> prim_col (dc_prim d) = Some c -> exists i, find_column c fs = Ok i.
+
+Lemma build_lookup_safe sl fs : safe (build_lookup sl fs) (fun _ => resolved sl fs).
+Proof.
+  induction sl as [|d sl IH]; cbn.
+  - intros d c [].
+  - destruct (prim_col (dc_prim d)) as [c|] eqn:P.
+    + destruct (find_column c fs) as [i| |] eqn:F; cbn; auto.
+      * eapply safe_weaken; [exact IH|]. intros u R d' c' [E|Hd] Hc; cbn beta in R; [subst d'; rewrite P in Hc; inversion Hc; subst; eauto | eapply R; eauto].
+      * pose proof (find_column_safe c fs) as S. rewrite F in S. exact S.
+    + eapply safe_weaken; [exact IH|]. intros u R d' c' [E|Hd] Hc; cbn beta in R; [subst d'; congruence | eapply R; eauto].
+Qed.
+
+Definition aggr_item (d : derivedcol) : bool := is_avg d || is_count d.
+
+Lemma lookup_lt c fs : (exists i, find_column c fs = Ok i) -> (lookup_idx c fs < List.length fs)%nat.
+Proof. intros [i F]. unfold lookup_idx. rewrite F. eapply find_column_lt; eauto. Qed.
+
+(* one cell: never a panic; aggregate seeds are integers; two rows give compatible cells *)
+Lemma project_cell_safe d fs rw :
+  List.length rw = List.length fs ->
+  (forall c, prim_col (dc_prim d) = Some c -> exists i, find_column c fs = Ok i) ->
+  safe (project_cell (dc_prim d) fs rw) (fun v => int_cell d v).
+Proof.
+  intros L R. unfold project_cell, int_cell, is_avg, is_count.
+  destruct (dc_prim d) as [ | [c|] | c | e] eqn:Ed; cbn; auto.
+  - rewrite idx_row_nth by (rewrite L; apply lookup_lt; apply R; reflexivity). cbn. intros _. destruct (nth (lookup_idx c fs) rw VNull); eauto.
+  - eauto.
+  - rewrite idx_row_nth by (rewrite L; apply lookup_lt; apply R; reflexivity). cbn.
+    destruct (nth (lookup_idx c fs) rw VNull); cbn; eauto.
+  - assert (G : safe (evaluate e fs rw) (fun _ => True)) by (eapply safe_weaken; [apply evaluate_safe; auto | auto]).
+    destruct e as [[l|c]| | | ]; try (eapply safe_weaken; [exact G|]; intros v _ [H|H]; discriminate).
+    rewrite idx_row_nth by (rewrite L; apply lookup_lt; apply R; reflexivity). cbn. intros [H|H]; discriminate.
+Qed.
+
+Lemma project_cell_compat d fs r1 r2 v1 v2 :
+  List.length r1 = List.length fs -> List.length r2 = List.length fs -> compat r1 r2 ->
+  (forall c, prim_col (dc_prim d) = Some c -> exists i, find_column c fs = Ok i) ->
+  project_cell (dc_prim d) fs r1 = Ok v1 -> project_cell (dc_prim d) fs r2 = Ok v2 -> same_tag v1 v2 = true.
+Proof.
+  intros L1 L2 C R. unfold project_cell.
+  destruct (dc_prim d) as [ | [c|] | c | e] eqn:Ed; cbn; try discriminate.
+  - rewrite !idx_row_nth by (rewrite ?L1, ?L2; apply lookup_lt; apply R; reflexivity). cbn.
+    intros H1 H2. inversion H1; inversion H2; subst.
+    destruct (nth _ r1 VNull), (nth _ r2 VNull); reflexivity.
+  - intros H1 H2. inversion H1; inversion H2; reflexivity.
+  - rewrite !idx_row_nth by (rewrite ?L1, ?L2; apply lookup_lt; apply R; reflexivity). cbn.
+    destruct (nth (lookup_idx c fs) r1 VNull), (nth (lookup_idx c fs) r2 VNull); try discriminate.
+    intros H1 H2. inversion H1; inversion H2; reflexivity.
+  - assert (G : forall e', evaluate e' fs r1 = Ok v1 -> evaluate e' fs r2 = Ok v2 -> same_tag v1 v2 = true).
+    { intros e' H1 H2. pose proof (evaluate_safe e' fs r1 L1) as S1. pose proof (evaluate_safe e' fs r2 L2) as S2.
+      rewrite H1 in S1. rewrite H2 in S2. eapply eval_tag_compat; eauto. }
+    destruct e as [[l|c]| | | ]; cbn iota beta; try apply G.
+    rewrite !idx_row_nth by (rewrite ?L1, ?L2; apply lookup_lt; apply R; reflexivity).
+    intros H1 H2. inversion H1; inversion H2; subst. apply compat_nth. exact C.
+Qed.
+
+Lemma resolved_cons d sl fs : resolved (d :: sl) fs ->
+  (forall c, prim_col (dc_prim d) = Some c -> exists i, find_column c fs = Ok i) /\ resolved sl fs.
+Proof. intros R. split; [intros c Hc; apply (R d c); cbn; auto | intros d' c' Hd Hc; apply (R d' c'); cbn; auto]. Qed.
+
+Lemma project_row_safe sl fs rw :
+  List.length rw = List.length fs -> resolved sl fs -> safe (project_row sl fs rw) (fun r => ints_at sl r).
+Proof.
+  intros L. induction sl as [|d sl IH]; intros R; cbn.
+  - constructor.
+  - apply resolved_cons in R. destruct R as [Rd R].
+    eapply safe_bind; [apply project_cell_safe; auto|]. intros v Hv.
+    eapply safe_bind; [apply IH; auto|]. intros vs Hvs. cbn. constructor; auto.
+Qed.
+
+Lemma project_row_compat sl fs r1 r2 : forall p1 p2,
+  List.length r1 = List.length fs -> List.length r2 = List.length fs -> compat r1 r2 -> resolved sl fs ->
+  project_row sl fs r1 = Ok p1 -> project_row sl fs r2 = Ok p2 -> compat p1 p2.
+Proof.
+  induction sl as [|d sl IH]; intros p1 p2 L1 L2 C R; cbn.
+  - intros H1 H2. inversion H1; inversion H2. constructor.
+  - apply resolved_cons in R. destruct R as [Rd R].
+    destruct (project_cell (dc_prim d) fs r1) as [v1| |] eqn:E1; cbn; try discriminate.
+    destruct (project_row sl fs r1) as [q1| |] eqn:F1; cbn; try discriminate.
+    destruct (project_cell (dc_prim d) fs r2) as [v2| |] eqn:E2; cbn; try discriminate.
+    destruct (project_row sl fs r2) as [q2| |] eqn:F2; cbn; try discriminate.
+    intros H1 H2. inversion H1; inversion H2; subst. constructor.
+    + apply (project_cell_compat d fs r1 r2 v1 v2 L1 L2 C Rd E1 E2).
+    + apply (IH q1 q2); auto.
+Qed.
+
+Lemma project_rows_safe sl fs rows :
+  rows_ok (List.length fs) rows -> resolved sl fs ->
+  safe (project_rows sl fs rows)
+       (fun out => Forall (ints_at sl) out /\
+                   forall p, In p out -> exists r, In r rows /\ project_row sl fs r = Ok p).
+Proof.
+  intros [W C] R. clear C. induction rows as [|rw rows IH]; cbn.
+  - split; [constructor | intros p []].
+  - inversion W as [|? ? Hw W']; subst.
+    destruct (project_row sl fs rw) as [p| |] eqn:E; cbn; auto.
+    + pose proof (project_row_safe sl fs rw Hw R) as S. rewrite E in S. cbn in S.
+      eapply safe_bind; [apply IH; auto|]. intros out [I P]. cbn. split; [constructor; auto|].
+      intros p' [<-|Hp]; [exists rw; cbn; auto|]. destruct (P p' Hp) as [r [Hr Hp']]. exists r. cbn. auto.
+    + pose proof (project_row_safe sl fs rw Hw R) as S. rewrite E in S. exact S.
+Qed.
+
+Lemma project_header_safe sl fs : resolved sl fs -> safe (project_header sl fs) (fun hdr => List.length hdr = List.length sl).
+Proof.
+  induction sl as [|d sl IH]; intros R; cbn; auto.
+  apply resolved_cons in R. destruct R as [Rd R].
+  assert (H : safe (header_cell d fs) (fun _ => True)).
+  { unfold header_cell. destruct (dc_prim d) as [ | [c|] | c | e] eqn:Ed; cbn; auto.
+    destruct e as [[l|c]| | | ]; cbn; auto.
+    destruct (nth_error fs (lookup_idx c fs)) eqn:E; cbn; auto.
+    apply nth_error_None in E. assert (lookup_idx c fs < List.length fs)%nat by (apply lookup_lt; apply Rd; reflexivity). lia. }
+  eapply safe_bind; [exact H|]. intros f _. eapply safe_bind; [apply IH; auto|]. intros fs' L. cbn. f_equal. exact L.
+Qed.
+
+
+(* ---------------------------------------------------------------------------------- *)
+(* aggregation                                                                         *)
+
+(* relation between a representative and the first member of its group: aggregate cells are
+   integers, all other cells are the first member's *)
+Fixpoint rep_rel (sl : list derivedcol) (rep m : row) : Prop :=
+  match sl, rep, m with
+  | [], [], [] => True
+  | d :: sl', v :: rep', x :: m' =>
+      (if aggr_item d then exists z, v = VInt z else v = x) /\ rep_rel sl' rep' m'
+  | _, _, _ => False
+  end.
+
+Lemma cols_q_rel sl : forall first n rw rep m,
+  ints_at sl rw -> rep_rel sl rep m -> rep_rel sl (cols_q sl first n rw rep) m.
+Proof.
+  induction sl as [|d sl IH]; intros first n rw rep m Hw.
+  - inversion Hw; subst. destruct rep, m; cbn; auto.
+  - inversion Hw as [|? x ? rw' Hx Hw']; subst. destruct rep as [|y rep], m as [|x0 m]; cbn; try tauto.
+    intros [Hy Hr]. split; [|apply IH; auto].
+    unfold aggr_item, cell_upd, is_avg, is_count in *.
+    destruct (dc_prim d); cbn in *; auto.
+    + destruct first; eauto.
+    + eauto.
+Qed.
+
+Lemma rel_init sl : forall m, ints_at sl m -> rep_rel sl (cols_q sl true 1 m m) m.
+Proof.
+  induction sl as [|d sl IH]; intros m H; inversion H as [|? x ? m' Hx H']; subst; cbn; auto.
+  split; [|apply IH; auto].
+  unfold int_cell, aggr_item, cell_upd, is_avg, is_count in *.
+  destruct (dc_prim d); cbn in *; auto; eauto.
+Qed.
+
+Lemma rep_fold_rel sl ms : forall rep n m,
+  Forall (ints_at sl) ms -> rep_rel sl rep m -> rep_rel sl (rep_fold sl rep n ms) m.
+Proof.
+  induction ms as [|a ms IH]; intros rep n m H R; cbn; auto.
+  inversion H; subst. apply IH; auto. apply cols_q_rel; auto.
+Qed.
+
+Lemma group_rep_rel sl m ms : Forall (ints_at sl) (m :: ms) -> rep_rel sl (group_rep sl (m :: ms)) m.
+Proof. intros H. inversion H; subst. cbn. apply rep_fold_rel; auto. apply rel_init; auto. Qed.
+
+Lemma rel_compat sl : forall r1 m1 r2 m2,
+  rep_rel sl r1 m1 -> rep_rel sl r2 m2 -> compat m1 m2 -> compat r1 r2.
+Proof.
+  unfold compat. induction sl as [|d sl IH]; intros [|v1 r1] [|x1 m1] [|v2 r2] [|x2 m2] R1 R2 C;
+    cbn in R1, R2; try contradiction; try (inversion C; fail).
+  - constructor.
+  - destruct R1 as [H1 R1], R2 as [H2 R2]. inversion C; subst. constructor; [|eapply IH; eauto].
+    destruct (aggr_item d).
+    + destruct H1 as [z1 ->], H2 as [z2 ->]. reflexivity.
+    + subst. auto.
+Qed.
+
+Lemma rel_length sl : forall r m, rep_rel sl r m -> List.length r = List.length sl.
+Proof. induction sl as [|d sl IH]; intros [|v r] [|x m]; cbn; try tauto. intros [_ H]. f_equal. eauto. Qed.
+
+(* `*` together with GROUP BY: no select column matches, every row has the empty key, the
+   first row stays *)
+Definition all_star (sl : list derivedcol) : bool :=
+  forallb (fun d => match dc_prim d with SPStar => true | _ => false end) sl.
+
+Lemma agg_cols_star sl : forall ci first rw rep cs, all_star sl = true -> agg_cols sl ci first rw rep cs = Ok (rep, cs).
+Proof.
+  induction sl as [|d sl IH]; intros ci first rw rep cs H; cbn; auto.
+  cbn in H. apply andb_true_iff in H. destruct H as [Hd H]. destruct (dc_prim d); try discriminate. apply IH; auto.
+Qed.
+
+Lemma col_to_idx_star sl g : all_star sl = true -> forall k, col_to_idx_from sl g k = None.
+Proof.
+  induction sl as [|d sl IH]; intros H k; cbn; auto.
+  cbn in H. apply andb_true_iff in H. destruct H as [Hd H]. unfold dc_matches.
+  destruct (dc_prim d); try discriminate. apply IH; auto.
+Qed.
+
+Lemma group_key_star sl gb rw : all_star sl = true -> group_key sl gb rw = Ok [].
+Proof.
+  intros H. induction gb as [|g gb IH]; cbn; auto.
+  unfold col_to_idx. rewrite col_to_idx_star by auto. exact IH.
+Qed.
+
+Lemma set_group_in_weak k s gs e : In e (set_group k s gs) -> In e gs \/ snd e = s.
+Proof.
+  induction gs as [|[k' s'] gs IH]; cbn; auto. destruct (gkey_eqb k' k); cbn.
+  - intros [<-|H]; auto.
+  - intros [<-|H]; auto. destruct (IH H); auto.
+Qed.
+
+Lemma agg_loop_star sl gb rows : all_star sl = true -> forall gs (S : row -> Prop),
+  (forall e, In e gs -> S (fst (snd e))) -> (forall r, In r rows -> S r) ->
+  safe (agg_loop sl gb gs rows) (fun gs' => forall e, In e gs' -> S (fst (snd e))).
+Proof.
+  intros H. induction rows as [|rw rows IH]; intros gs S Hg Hr; cbn; auto.
+  unfold agg_step. rewrite group_key_star by auto. cbn [Select.obind].
+  destruct (find_group [] gs) as [[rep cs]|] eqn:F.
+  - rewrite agg_cols_star by auto. cbn. apply IH.
+    + intros e He. apply set_group_in_weak in He. destruct He as [He|He]; auto.
+      destruct e as [k' s']. cbn in He. subst s'. cbn. apply find_group_some in F. apply (Hg _ F).
+    + intros r Hr'. apply Hr. right; auto.
+  - rewrite agg_cols_star by auto. cbn. apply IH.
+    + intros e He. rewrite in_app_iff in He. destruct He as [He|[<-|[]]]; auto. cbn. apply Hr. left; auto.
+    + intros r Hr'. apply Hr. right; auto.
+Qed.
+
+Lemma empty_row_safe sl : safe (empty_aggregate_row sl) (fun r => List.length r = List.length sl).
+Proof.
+  induction sl as [|d sl IH]; cbn; auto.
+  assert (H : safe (match dc_prim d with
+                    | SPCount _ | SPAvg _ => Ok (VInt 0)
+                    | SPExpr e => evaluate e [] []
+                    | SPStar => Err EOther end) (fun _ => True)).
+  { destruct (dc_prim d); cbn; auto. eapply safe_weaken; [apply evaluate_safe; reflexivity | auto]. }
+  eapply safe_bind; [exact H|]. intros v _. eapply safe_bind; [exact IH|]. intros vs L. cbn. f_equal. exact L.
+Qed.
+
+(* rows as the projection left them (not `*`): aggregation is safe and keeps the invariant *)
+Lemma aggregate_safe sl gb rows :
+  rows_ok (List.length sl) rows -> Forall (ints_at sl) rows ->
+  safe (aggregate_rows sl gb rows) (fun out => rows_ok (List.length sl) out).
+Proof.
+  intros RO I. unfold aggregate_rows.
+  destruct (negb (has_aggr sl) && match gb with [] => true | _ => false end); [exact RO|].
+  assert (Loop : safe (gs <~ agg_loop sl gb [] rows ;; Ok (map (fun g => fst (snd g)) gs))
+                      (fun out => rows_ok (List.length sl) out)).
+  { destruct (agg_loop_inv sl gb rows [] [] (inv_init sl gb)) as [gs [E Inv]]; auto.
+    rewrite E. cbn. cbn [app] in Inv.
+    assert (Ent : forall o, In o (map (fun g => fst (snd g)) gs) ->
+              exists m ms, In m rows /\ Forall (ints_at sl) (m :: ms) /\ o = group_rep sl (m :: ms)).
+    { intros o Ho. apply in_map_iff in Ho. destruct Ho as [[k s] [<- He]]. cbn.
+      destruct (inv_state _ _ _ _ Inv _ _ He) as [NE [Hr _]].
+      destruct (members sl gb k rows) as [|m ms] eqn:Em; [congruence|].
+      exists m, ms. repeat split; auto.
+      - assert (Hin : In m (members sl gb k rows)) by (rewrite Em; left; auto). apply members_in in Hin. tauto.
+      - rewrite <- Em. apply members_good. exact I. }
+    split.
+    - rewrite Forall_forall. intros o Ho. destruct (Ent o Ho) as [m [ms [_ [G ->]]]].
+      eapply rel_length. apply group_rep_rel. exact G.
+    - intros o1 o2 H1 H2. destruct (Ent o1 H1) as [m1 [ms1 [Hm1 [G1 ->]]]]. destruct (Ent o2 H2) as [m2 [ms2 [Hm2 [G2 ->]]]].
+      eapply rel_compat; [apply group_rep_rel; exact G1 | apply group_rep_rel; exact G2 |].
+      destruct RO as [_ C]. apply C; auto. }
+  destruct gb as [|g gb].
+  - destruct rows as [|r rows]; [|exact Loop].
+    eapply safe_bind; [apply empty_row_safe|]. intros r L. cbn. split.
+    + constructor; auto.
+    + intros a b [<-|[]] [<-|[]]. apply compat_refl.
+  - destruct rows; exact Loop.
+Qed.
+
+(* rows as they came from FROM / WHERE (select list is `*`) *)
+Lemma aggregate_safe_star sl gb rows n :
+  all_star sl = true -> rows_ok n rows -> safe (aggregate_rows sl gb rows) (fun out => rows_ok n out).
+Proof.
+  intros H RO. unfold aggregate_rows.
+  assert (HA : has_aggr sl = false).
+  { unfold has_aggr. clear - H. induction sl as [|d sl IH]; cbn; auto. cbn in H. apply andb_true_iff in H.
+    destruct H as [Hd H]. rewrite IH by auto. destruct (dc_prim d); try discriminate; reflexivity. }
+  rewrite HA. cbn [negb andb].
+  destruct gb as [|g gb]; [exact RO|].
+  assert (Loop : safe (gs <~ agg_loop sl (g :: gb) [] rows ;; Ok (map (fun g => fst (snd g)) gs)) (fun out => rows_ok n out)).
+  { eapply safe_bind.
+    - apply (agg_loop_star sl (g :: gb) rows H [] (fun r => In r rows)); [intros e [] | auto].
+    - intros gs Hg. cbn. apply (rows_ok_incl n rows); auto.
+      intros o Ho. apply in_map_iff in Ho. destruct Ho as [e [<- He]]. apply Hg. exact He. }
+  destruct rows; exact Loop.
+Qed.
+
+(* ---------------------------------------------------------------------------------- *)
+(* projectColumns, sortColumns, the whole statement                                    *)
+
+Definition no_star (sl : list derivedcol) : bool :=
+  forallb (fun d => match dc_prim d with SPStar => false | _ => true end) sl.
+
+(* what the rest of the pipeline needs to know after projectColumns *)
+Definition after_proj (sl : list derivedcol) (res : list field * list row) : Prop :=
+  let '(hdr, out) := res in
+  (all_star sl = true /\ rows_ok (List.length hdr) out) \/
+  (List.length hdr = List.length sl /\ rows_ok (List.length sl) out /\ Forall (ints_at sl) out).
+
+Lemma shape_cases sl :
+  star_alone sl = true ->
+  sl <> [] /\ (all_star sl = true \/ match sl with d :: _ => dc_prim d <> SPStar | [] => True end).
+Proof.
+  unfold star_alone. destruct sl as [|d [|d' sl]]; try discriminate.
+  - intros _. split; [discriminate|]. cbn. destruct (dc_prim d); auto; right; discriminate.
+  - intros H. split; [discriminate|]. right. cbn in H. destruct (dc_prim d); try discriminate.
+Qed.
+
+Lemma project_columns_safe sl fs rows :
+  sl <> [] -> (all_star sl = true \/ match sl with d :: _ => dc_prim d <> SPStar | [] => True end) ->
+  rows_ok (List.length fs) rows ->
+  safe (project_columns sl fs rows) (after_proj sl).
+Proof.
+  intros NE Sh RO. destruct sl as [|d sl]; [congruence|]. unfold project_columns.
+  destruct (dc_prim d) eqn:Ed.
+  - (* star first *)
+    destruct Sh as [Sh|Sh]; [|congruence]. cbn. left. auto.
+  - eapply safe_bind; [apply build_lookup_safe|]. intros u R. cbn beta in R.
+    eapply safe_bind; [apply project_rows_safe; eauto|]. intros out [I P].
+    eapply safe_bind; [apply project_header_safe; auto|]. intros hdr L. cbn. right. repeat split; auto.
+    + rewrite Forall_forall in *. intros p Hp. apply (ints_at_length (d :: sl) p). auto.
+    + intros p1 p2 H1 H2. destruct (P p1 H1) as [r1 [Hr1 E1]]. destruct (P p2 H2) as [r2 [Hr2 E2]].
+      destruct RO as [W C]. rewrite Forall_forall in W.
+      apply (project_row_compat (d :: sl) fs r1 r2 p1 p2 (W r1 Hr1) (W r2 Hr2) (C r1 r2 Hr1 Hr2) R E1 E2).
+  - eapply safe_bind; [apply build_lookup_safe|]. intros u R. cbn beta in R.
+    eapply safe_bind; [apply project_rows_safe; eauto|]. intros out [I P].
+    eapply safe_bind; [apply project_header_safe; auto|]. intros hdr L. cbn. right. repeat split; auto.
+    + rewrite Forall_forall in *. intros p Hp. apply (ints_at_length (d :: sl) p). auto.
+    + intros p1 p2 H1 H2. destruct (P p1 H1) as [r1 [Hr1 E1]]. destruct (P p2 H2) as [r2 [Hr2 E2]].
+      destruct RO as [W C]. rewrite Forall_forall in W.
+      apply (project_row_compat (d :: sl) fs r1 r2 p1 p2 (W r1 Hr1) (W r2 Hr2) (C r1 r2 Hr1 Hr2) R E1 E2).
+  - eapply safe_bind; [apply build_lookup_safe|]. intros u R. cbn beta in R.
+    eapply safe_bind; [apply project_rows_safe; eauto|]. intros out [I P].
+    eapply safe_bind; [apply project_header_safe; auto|]. intros hdr L. cbn. right. repeat split; auto.
+    + rewrite Forall_forall in *. intros p Hp. apply (ints_at_length (d :: sl) p). auto.
+    + intros p1 p2 H1 H2. destruct (P p1 H1) as [r1 [Hr1 E1]]. destruct (P p2 H2) as [r2 [Hr2 E2]].
+      destruct RO as [W C]. rewrite Forall_forall in W.
+      apply (project_row_compat (d :: sl) fs r1 r2 p1 p2 (W r1 Hr1) (W r2 Hr2) (C r1 r2 Hr1 Hr2) R E1 E2).
+Qed.
+
+Lemma sort_idxs_safe ssl hdr : safe (sort_idxs ssl hdr) (fun keys => Forall (fun k => (fst k < List.length hdr)%nat) keys).
+Proof.
+  induction ssl as [|s ssl IH]; cbn.
+  - constructor.
+  - pose proof (find_column_safe (ss_key s) hdr) as F.
+    destruct (find_column (ss_key s) hdr) as [i|e|w]; cbn in *.
+    + eapply safe_bind; [exact IH|]. intros more M. cbn. constructor; auto.
+    + destruct e; cbn; auto.
+    + contradiction.
+Qed.
+
+Lemma sort_rows_safe keys rows n :
+  rows_ok n rows -> Forall (fun k => (fst k < n)%nat) keys -> safe (sort_rows keys rows) (fun _ => True).
+Proof.
+  intros [W C] K. unfold sort_rows.
+  destruct (sort_loop_spec keys rows []) as [s [E _]].
+  - rewrite app_nil_r. intros a b Ha Hb. rewrite Forall_forall in W. apply go_less_ltb.
+    + unfold wide. rewrite (W a Ha). exact K.
+    + unfold wide. rewrite (W b Hb). exact K.
+    + unfold tags_ok. rewrite Forall_forall. intros k _. apply compat_nth. apply C; auto.
+  - constructor.
+  - rewrite E. cbn. auto.
+Qed.
+
+Lemma window_safe q rows : window_ok q = true -> safe (select_window q rows) (fun _ => True).
+Proof. intros H. rewrite select_window_spec by auto. cbn. auto. Qed.
+
+Lemma shape_window q : parser_shape q = true -> window_ok q = true.
+Proof.
+  unfold parser_shape, window_ok. rewrite !andb_true_iff. intros [[_ L] O]. rewrite L, O, !orb_true_r. auto.
+Qed.
+
+Theorem select_no_panic d q :
+  parser_shape q = true -> db_wf d = true -> forall what, select q d <> Panic what.
+Proof.
+  intros PS WF what.
+  assert (S : safe (select q d) (fun _ => True)); [|intros E; rewrite E in S; exact S].
+  pose proof (shape_window q PS) as WO.
+  unfold parser_shape in PS. rewrite !andb_true_iff in PS. destruct PS as [[Sh _] _].
+  apply shape_cases in Sh. destruct Sh as [NE Sh].
+  unfold select. destruct (sel_from q) as [|tr _].
+  - (* no FROM *)
+    eapply safe_weaken; [apply (project_columns_safe (sel_list q) [] [[]] NE Sh)|auto].
+    split; [repeat constructor|]. intros a b [<-|[]] [<-|[]]. apply compat_refl.
+  - unfold select_core.
+    eapply safe_bind; [eapply safe_bind; [apply join_safe; exact WF|]|].
+    + intros [fields rows] RO.
+      eapply safe_bind.
+      * instantiate (1 := fun kept => rows_ok (List.length fields) kept).
+        destruct (sel_where q) as [w|]; [apply filter_rows_safe; auto | exact RO].
+      * intros kept RK.
+        eapply safe_bind; [apply (project_columns_safe _ _ _ NE Sh RK)|].
+        intros [hdr rows2] AP.
+        eapply safe_bind.
+        -- instantiate (1 := fun rows3 => rows_ok (List.length hdr) rows3).
+           destruct AP as [[St R2]|[L [R2 I]]].
+           ++ apply aggregate_safe_star; auto.
+           ++ rewrite L. apply aggregate_safe; auto.
+        -- intros rows3 R3.
+           eapply safe_bind; [apply sort_idxs_safe|]. intros keys K.
+           instantiate (1 := fun '(h, r, k) => exists n, rows_ok n r /\ Forall (fun x => (fst x < n)%nat) k).
+           cbn. eauto.
+    + intros [[hdr rows] keys] [n [RO K]].
+      eapply safe_bind; [apply (sort_rows_safe keys rows n RO K)|]. intros sorted _.
+      eapply safe_bind; [apply window_safe; exact WO|]. intros out _. cbn. auto.
 Qed.
